@@ -9,7 +9,8 @@ from ..report import Result
 from .c05 import ctor_cases
 
 TECHNIQUE = ("abstract interpretation of the constructor per amount kind (exact coercions only, quantum step the only "
-             "rounding), outcome tables of the string path, writer/reader agreement of the text template")
+             "rounding), outcome tables of the string path, text-template domain for str()/format() (evaluated writer) against the "
+             "evaluated reader")
 
 
 def template_of_joinedstr(js: ast.JoinedStr):
@@ -167,17 +168,55 @@ def run(prog, tier) -> Result:
 
     string_cases(prog, cr, rule="R18.4")
 
-    # ---- R18.3 text template: writer / reader agreement
+    # ---- R18.3 text template: writer / reader agreement, decided on the evaluated text (a template of literal
+    # pieces and formatted values), not on how __str__ / __format__ are written
     qstr = prog.method("Quantity", "__str__")
-    rets = [n for n in ast.walk(qstr.node) if isinstance(n, ast.Return)]
-    tpl = template_of_joinedstr(rets[0].value) if rets and isinstance(rets[0].value, ast.JoinedStr) else None
-    want_tpl = [("field", "self.amount", -1, None), ("text", " "), ("field", "self.unit", -1, None)]
-    alt = [("field", "self._amount", -1, None), ("text", " "), ("field", "self._unit", -1, None)]
-    res.ob("R18.3", "Quantity.__str__", "amount, one blank, unit", tpl in (want_tpl, alt), f"template {tpl}",
-           sig="str(q) is not '<amount> <unit>'")
+    qfmt = prog.method("Quantity", "__format__")
+
+    def setup_text(fl, with_spec):
+        def setup(c):
+            c.m.text_templates = True
+            c.new_type("T", **FLAVORS[fl])
+            q = c.qty("self", c.unit("us", "T"))
+            return ([q, StrV("")] if with_spec else [q]), {}
+        return setup
+
+    def judge_text(what):
+        def judge(o):
+            st = o.state
+            if o.kind == "raise":
+                return (exc_sig(o), f"{what} raises")
+            q = o.args[0]
+            v = o.value
+            if not isinstance(v, StrV):
+                return (f"{what} is not text", repr(v))
+            parts = c18_parts(v)
+            want = "<amount> <unit symbol>"
+            shown = " + ".join(repr(p[1]) + (f":{p[2]}" if len(p) > 2 else "") for p in parts)
+            if len(parts) != 3 or [p[0] for p in parts] != ["val", "lit", "val"] or any(len(p) > 2 for p in parts):
+                return (f"{what} is not '<amount> <unit>'", f"text = {shown}; contract {want}")
+            a, sep, u = parts[0][1], parts[1][1], parts[2][1]
+            if not (isinstance(a, Num) and st.norm(a.rf).equals(st.norm(q.amount.rf))):
+                return (f"{what} is not '<amount> <unit>'", f"first piece {a!r} is not the amount; text = {shown}")
+            if sep != " ":
+                return (f"{what} is not '<amount> <unit>'", f"separator {sep!r}: the reader splits at one blank")
+            if not (isinstance(u, StrV) and u.tag == f"symbol({st.ufind(q.unit.uid)})"):
+                return ("text of the unit is not the symbol the reader looks up", f"last piece {u!r}; text = {shown}")
+            return None
+        return judge
+
+    def c18_parts(v):
+        if v.const is not None:
+            return [("lit", v.const)]
+        p = getattr(v, "parts", None)
+        return list(p) if p is not None else [("val", v)]
+    for fl in ("ref", "ref+quantum", "money"):
+        cr.run("R18.3", qstr, f"str(q) [{fl}]", setup_text(fl, False), judge_text("str(q)"), flag_kinds=())
+        cr.run("R18.3", qfmt, f"format(q, '') [{fl}]", setup_text(fl, True), judge_text("format(q) without spec"),
+               flag_kinds=())
+        cr.run("R18.3", qfmt, f"format(q) [{fl}]", setup_text(fl, False), judge_text("format(q) without spec"),
+               flag_kinds=())
     dfl = prog.cls("Quantity").attrs.get("dflt_format_spec")
-    res.ob("R18.3", "Quantity.dflt_format_spec", "'{a} {u}'", isinstance(dfl, ast.Constant) and dfl.value == "{a} {u}",
-           src_of(dfl) if dfl is not None else "missing", sig="default format differs from str()")
     for ci in prog.classes.values():
         if ci.name != "Quantity" and prog.is_subclass(ci, "Quantity"):
             for attr in ("dflt_format_spec",):
@@ -190,23 +229,6 @@ def run(prog, tier) -> Result:
             for meth in ("__str__", "__format__"):
                 res.ob("R18.3", f"{ci.name}.{meth}", "subclass does not override the text form", meth not in ci.methods,
                        f"{ci.name} defines {meth}", sig="subclass overrides the text form", nontrivial=False)
-    qfmt = prog.method("Quantity", "__format__")
-    fsrc = src_of(qfmt.node)
-    okf = "dflt_format_spec" in fsrc and any(
-        isinstance(n, ast.Call) and isinstance(n.func, ast.Attribute) and n.func.attr == "format" and
-        {k.arg: src_of(k.value) for k in n.keywords} in ({"a": "self.amount", "u": "self.unit"},
-                                                         {"a": "self._amount", "u": "self._unit"})
-        for n in ast.walk(qfmt.node))
-    guard = any(isinstance(n, ast.If) and src_of(n.test) in ("not fmt_spec", "fmt_spec == ''", "not fmt_spec.strip()")
-                for n in ast.walk(qfmt.node))
-    res.ob("R18.3", "Quantity.__format__", "empty spec -> default template with a=amount, u=unit", okf and guard, "",
-           sig="format(q) without spec differs from str(q)")
-    ustr = prog.method("Unit", "__str__")
-    ur = [n for n in ast.walk(ustr.node) if isinstance(n, ast.Return)]
-    ut = template_of_joinedstr(ur[0].value) if ur and isinstance(ur[0].value, ast.JoinedStr) else \
-        ([("field", src_of(ur[0].value), -1, None)] if ur else None)
-    res.ob("R18.3", "Unit.__str__", "is the symbol", ut in ([("field", "self.symbol", -1, None)], [("field", "self._symbol", -1, None)]),
-           f"{ut}", sig="str(unit) is not its symbol")
 
     res.require("R18.1", 28)
     res.require("R18.3", 5)
